@@ -181,12 +181,12 @@ Definition field_size (num : Z) (t : ty) (sz : Z) : Z :=
   else (if is_ld t then sz + bb_varint_size sz else sz) + bb_varint_size (tag_of num t).
 
 (* SERIALIZED_SIZE_COMPLEXITY == TRIVIAL ("the size does not depend on the value"): float, double, aggregates of
-   TRIVIAL members, and - as the code is - smart pointers, which inherit the pointee's complexity (regenerated)
-   although a null pointer has size 0 *)
+   TRIVIAL members.  A smart pointer to a TRIVIAL pointee has the complexity the sources give it (regenerated:
+   0 COMPLEX, 1 SIMPLE, 2 TRIVIAL; SIMPLE since 8a146e9, because a null pointer has size 0) *)
 Fixpoint trivial (t : ty) : bool :=
   match t with
   | TS KF32 | TS KF64 => true
-  | TPtr sh e => (if sh then sptr_inherits_complexity else uptr_inherits_complexity) =? 1 && trivial e
+  | TPtr sh e => ((if sh then sptr_trivial_becomes else uptr_trivial_becomes) =? 2) && trivial e
   | TAgg fs => forallb (fun p => trivial (snd p)) fs
   | _ => false
   end.
